@@ -753,6 +753,20 @@ fn build_ve(ve: &str, height: u64) -> (ExtendedCommitInfo, CommitInfo, usize) {
 // ------------------------------------------------------------------------------------------
 // blocks
 
+/// identity of the `CommitInfo` a vote-extension spec projects to (what the fingerprint stores):
+/// the round and, per validator, whether it committed (`c`) or was absent (`a`)
+fn lc_key(ve: &str) -> String {
+    if ve == "none" {
+        return "0:none".to_string();
+    }
+    let parts: Vec<&str> = ve.split('/').collect();
+    let mut s = format!("{}:", parts[0]);
+    for i in 0..3 {
+        s.push(if parts.get(i + 1).copied().unwrap_or("-") == "-" { 'a' } else { 'c' });
+    }
+    s
+}
+
 /// does the extended-commit-info data item decode the way `ExpandedBlockData::new_from_typed_data`
 /// needs it to?
 fn eci_well_formed(item: &Bytes) -> bool {
@@ -918,12 +932,11 @@ impl World {
         let e1 = self.byte_id(&e1);
         let e2 = self.byte_id(&e2);
         format!(
-            "h={} t={} p={} lc={}:{} x={} hash={} er={},{} np={} src={} by={} items={}",
+            "h={} t={} p={} lc={} x={} hash={} er={},{} np={} src={} by={} items={}",
             b.height,
             b.time_s,
             b.proposer,
-            b.round,
-            if b.ve == "none" { "none".to_string() } else { b.ve.replace('/', "~") },
+            lc_key(&b.ve),
             xs,
             h8(&blk_hash(&b)),
             e1,
@@ -993,15 +1006,7 @@ impl World {
             .unwrap();
             if m.data() == prepared {
                 let xs = self.txs_list_id(&blk_txs(&b));
-                return format!(
-                    "{}.{}.{}.{}:{}.{}",
-                    b.height,
-                    b.time_s,
-                    b.proposer,
-                    b.round,
-                    if b.ve == "none" { "none".to_string() } else { b.ve.replace('/', "~") },
-                    xs
-                );
+                return format!("{}.{}.{}.{}.{}", b.height, b.time_s, b.proposer, lc_key(&b.ve), xs);
             }
         }
         "unknown".to_string()
